@@ -567,6 +567,7 @@ def run_property(chk, prop, laws, quick_gen=300, thorough_gen=4000, scns=None, n
                 except fanproto.Unsupported as e:
                     chk.dist("fanproto.unsupported.%s" % e)
             pending_runs.append({"probs": probs, "case": case, "hand": hand, "kind": kind, "fan": ab,
+                                 "reqs": [{"t": q["t"], "queue": q["queue"], "payload": q["payload"]} for q in s.rpc_requests],
                                  "hist": (list(getattr(mon, "final_history", []) or []), len(s.rpc_requests),
                                           [q["t"] for q in s.rpc_requests]) if want_hist else None,
                                  "notes": [n["detail"] for n in mon.notes] if want_notes else None,
@@ -612,13 +613,14 @@ def run_property(chk, prop, laws, quick_gen=300, thorough_gen=4000, scns=None, n
             # under the canonical schedule every event is handled the instant it is due: the instants are compared too
             canon = pr["kind"] == "canonical"
             mode, hp, nev = enginerun.compare_history(pr["case"]["machine"], mo, pr["hist"][0], pr["hist"][1], timed=canon,
-                                                      request_instants=pr["hist"][2] if canon else None)
+                                                      request_instants=pr["hist"][2] if canon else None, requests=pr["reqs"])
             chk.dist("history_vs_reference.%s.%s" % (pr["kind"], mode))
             chk.dist("history_vs_reference.%s.events" % mode, nev)
             if hp:
                 probs = probs + [("C09.history_matches_reference", {"mode": mode, "differences": hp})]
         if pr["notes"] is not None and mo is not None:
-            nmode, np_ = enginerun.compare_notifications(mo, pr["notes"], pr["case"]["input"], timed=pr["kind"] == "canonical")
+            nmode, np_ = enginerun.compare_notifications(mo, pr["notes"], pr["case"]["input"], timed=pr["kind"] == "canonical",
+                                                            requests=pr["reqs"])
             chk.dist("notifications_vs_reference.%s.%s" % (pr["kind"], nmode))
             if np_:
                 probs = probs + [("C11.notifications_match_reference", {"differences": np_})]
